@@ -252,31 +252,31 @@ theorem rbe3_normal_invertible {m k : ℕ} (R : Mx ℝ m k) (w : Fin m → ℝ) 
 
 /-- the least-squares step over any field: `rbe3 · rb = T[dd]` for every exact `solve` -/
 theorem rbe3_alg_reproduces {K : Type} [Field K] {m nd : ℕ}
-    (solve : {n k : ℕ} → Mx K n n → Mx K n k → Mx K n k) (hs : ExactSolve solve)
+    (solve : Solver K) (hs : ExactSolve solve)
     (rb : Mx K m 6) (w : Fin m → K) (T : Mx K 6 6) (dd : Fin nd → Fin 6)
     (hA : IsUnit (toM (fun j i => rb i j * w i : Mx K 6 m) * toM rb).det) :
-    toM (rbe3Alg solve rb w T dd) * toM rb = toM (T.selRows dd) :=
+    toM (rbe3Alg solve rb w T dd).mx * toM rb = toM (T.selRows dd) :=
   rbe3Alg_mul_rb solve hs rb w T dd hA
 
 /-- `formrbe3` (no `UM_List`): the interpolation matrix times the `rbgeom_uset` rows of the independent
 DOF (relative to any reference point `ref`) is the `rbgeom_uset` rows of the dependent DOF, for any
 dependent / independent grids in any output systems (q-set grids included), any component selection,
 positive weights, and independent rows of full column rank -/
-theorem rbe3_reproduces_rb {m nd : ℕ} (solve : {n k : ℕ} → Mx ℝ n n → Mx ℝ n k → Mx ℝ n k)
+theorem rbe3_reproduces_rb {m nd : ℕ} (solve : Solver ℝ)
     (hs : ExactSolve solve) (grids : List (GridR ℝ)) (dep : GridR ℝ) (dd : Fin nd → Fin 6)
     (ind : Fin m → IndDof ℝ) (hw : ∀ k, 0 < (ind k).w)
     (hrank : Function.Injective (toM (indRows ind dep.p)).mulVec) (ref : V3 ℝ) :
-    toM (rbe3Grid solve grids dep dd ind) * toM (indRows ind ref)
+    toM (rbe3Grid solve grids dep dd ind).mx * toM (indRows ind ref)
       = toM ((gridRowsMx dep ref).selRows dd) :=
   rbe3Grid_mul_indRows solve hs grids dep dd ind hw hrank ref
 
 /-- … hence any rigid motion `x = (t, ω)` of the reference point, seen at the independent DOF, is
 mapped to the same rigid motion seen at the dependent DOF -/
-theorem rbe3_rigid_motion {m nd : ℕ} (solve : {n k : ℕ} → Mx ℝ n n → Mx ℝ n k → Mx ℝ n k)
+theorem rbe3_rigid_motion {m nd : ℕ} (solve : Solver ℝ)
     (hs : ExactSolve solve) (grids : List (GridR ℝ)) (dep : GridR ℝ) (dd : Fin nd → Fin 6)
     (ind : Fin m → IndDof ℝ) (hw : ∀ k, 0 < (ind k).w)
     (hrank : Function.Injective (toM (indRows ind dep.p)).mulVec) (ref : V3 ℝ) (x : Fin 6 → ℝ) :
-    (toM (rbe3Grid solve grids dep dd ind)).mulVec ((toM (indRows ind ref)).mulVec x)
+    (toM (rbe3Grid solve grids dep dd ind).mx).mulVec ((toM (indRows ind ref)).mulVec x)
       = (toM ((gridRowsMx dep ref).selRows dd)).mulVec x := by
   rw [Matrix.mulVec_mulVec, rbe3Grid_mul_indRows solve hs grids dep dd ind hw hrank ref]
 
@@ -296,20 +296,20 @@ example : (∀ k, 0 < (exInd k).w) ∧ Function.Injective (toM (indRows exInd V3
 independent motion `Zi` to the dependent motion `Zd`, the new matrix maps (dependent, remaining
 independent) motion to the m-set motion -/
 theorem rbe3_um_indep {K : Type} [Field K] {nd ni q s : ℕ}
-    (solve : {n k : ℕ} → Mx K n n → Mx K n k → Mx K n k) (hs : ExactSolve solve) (R : Mx K nd ni)
+    (solve : Solver K) (hs : ExactSolve solve) (R : Mx K nd ni)
     (im : Fin nd → Fin ni) (inn : Fin q → Fin ni) (hp : IsPartition im inn)
     (hRm : IsUnit (toM (R.selCols im)).det)
     (Zi : Mx K ni s) (Zd : Mx K nd s) (h : toM R * toM Zi = toM Zd) :
-    toM (umIndep solve R im inn) * toM (Mx.vstack Zd (Zi.selRows inn)) = toM (Zi.selRows im) :=
+    toM (umIndep solve R im inn).mx * toM (Mx.vstack Zd (Zi.selRows inn)) = toM (Zi.selRows im) :=
   umIndep_spec solve hs R im inn hp hRm Zi Zd h
 
 /-- mixed m-set (`E = solve(C, [I, -D])`, `F = A E + [0, B]`) -/
 theorem rbe3_um_mixed {K : Type} [Field K] {nd ni r c q s : ℕ}
-    (solve : {n k : ℕ} → Mx K n n → Mx K n k → Mx K n k) (hs : ExactSolve solve) (R : Mx K nd ni)
+    (solve : Solver K) (hs : ExactSolve solve) (R : Mx K nd ni)
     (dm : Fin r → Fin nd) (dn : Fin c → Fin nd) (im : Fin c → Fin ni) (inn : Fin q → Fin ni)
     (hp : IsPartition im inn) (hC : IsUnit (toM ((R.selRows dn).selCols im)).det)
     (Zi : Mx K ni s) (Zd : Mx K nd s) (h : toM R * toM Zi = toM Zd) :
-    toM (umMixed solve R dm dn im inn) * toM (Mx.vstack (Zd.selRows dn) (Zi.selRows inn))
+    toM (umMixed solve R dm dn im inn).mx * toM (Mx.vstack (Zd.selRows dn) (Zi.selRows inn))
       = toM (Mx.vstack (Zd.selRows dm) (Zi.selRows im)) :=
   umMixed_spec solve hs R dm dn im inn hp hC Zi Zd h
 
